@@ -3,7 +3,7 @@ import DimodModel.Wire
 open Wire Sym
 
 /-! Line-protocol driver for the C06 model.  One expression tree per line, prefix notation:
-    `V <S|B|I|R> <label> <bias> <lb|-> <ub|->`, `C <q>`, `ADD a b`, `SUB a b`, `MUL a b`, `NEG a`,
+    `V <S|B|I|R> <label> <bias> <lb|-> <ub|->`, `C <q>`, `E <S|B> <offset>` (variable-free BQM), `ADD a b`, `SUB a b`, `MUL a b`, `NEG a`,
     `DIV <q> a`, `POW <n> a`, `IADD a b`, `ISUB a b`, `IMUL a b`, `IDIV <q> a`, `Q0`, `Q1 a`,
     `Q3 a b c`, `VIEWO a` / `VIEWC a` (objective / constraint view), `ADDS a` … (`t op t`).
     Answer: `err <class>` | `ok num <q>` | `ok <bqm:S|bqm:B|qm|view> <vars>;<quad>;<offset>` with
@@ -22,6 +22,7 @@ partial def parseExpr : List String → Option (SymExpr × List String)
       let lo ← parseOptRat lo; let hi ← parseOptRat hi
       pure (.var k l b lo hi, rest)
   | "C" :: q :: rest => do let q ← parseRat? q; pure (.const q, rest)
+  | "E" :: k :: q :: rest => do let k ← parseVT k; let q ← parseRat? q; pure (.empty k q, rest)
   | "NEG" :: rest => do let (a, r) ← parseExpr rest; pure (.neg a, r)
   | "VIEWO" :: rest => do let (a, r) ← parseExpr rest; pure (.view true a, r)
   | "VIEWC" :: rest => do let (a, r) ← parseExpr rest; pure (.view false a, r)
